@@ -1,6 +1,7 @@
 package datatype
 
 import (
+	"github.com/XiXi-2024/xixi-kv/utils"
 	"time"
 
 	bitcask "github.com/XiXi-2024/xixi-kv"
@@ -44,6 +45,26 @@ func vVal19(name string) []byte {
 	return verifBytes(name, 1)
 }
 
+// vZsetAliased: the member's own index key (key|version|member) coincides with the SCORE index key of another member
+// that is in the sorted set (key|version|score text|other member|len4(other member)) - known finding
+// KF-C19-zset-member-key-aliases-score-key: the two key spaces of a sorted set are not separated.
+func vZsetAliased(s *vKey, elems [][]byte, f int) bool {
+	hit := false
+	for g, sc := range s.zset {
+		if g == f {
+			continue
+		}
+		crafted := append([]byte{}, utils.Float64ToBytes(sc)...)
+		crafted = append(crafted, elems[g]...)
+		n := len(elems[g])
+		crafted = append(crafted, byte(n), byte(n>>8), byte(n>>16), byte(n>>24))
+		if len(crafted) == len(elems[f]) {
+			hit = verifOr(hit, verifBytesEq(crafted, elems[f]))
+		}
+	}
+	return hit
+}
+
 func verifHarnessC19() {
 	K := verifParam("k")
 	nk := verifParam("keys")
@@ -58,6 +79,11 @@ func verifHarnessC19() {
 	for i := range elems {
 		if i == 0 && verifParam("elen0") == 1 {
 			elems[i] = verifBytes("elem", 0) // the empty field / member name is a name like any other
+			continue
+		}
+		if i == 1 && verifParam("longmember") == 1 {
+			// a 6-byte member with arbitrary content (NUL bytes, digits ...): names are data, any bytes are a name
+			elems[i] = verifBytes("elem", 6)
 			continue
 		}
 		elems[i] = verifBytes("elem", 1)
@@ -255,6 +281,9 @@ func verifHarnessC19() {
 				ns = v
 			}
 			sc := scores[verifChoice("score", ns)]
+			if s.kind == vZSet && verifKnown("KF-C19-zset-member-key-aliases-score-key") && vZsetAliased(s, elems, f) {
+				verifKnownHit("KF-C19-zset-member-key-aliases-score-key", "ZAdd of a member named <score text><other member><len4>")
+			}
 			ok, err := dts.ZAdd(key, sc, elems[f])
 			if wrong(vZSet) {
 				verifAssert(err == ErrWrongTypeOperation, "C19.zadd-wrongtype")
@@ -268,6 +297,9 @@ func verifHarnessC19() {
 			s.zset[f] = sc
 		case cZScore:
 			f := verifChoice("fi", 2)
+			if s.kind == vZSet && verifKnown("KF-C19-zset-member-key-aliases-score-key") && vZsetAliased(s, elems, f) {
+				verifKnownHit("KF-C19-zset-member-key-aliases-score-key", "ZScore of a member named <score text><other member><len4>")
+			}
 			sc, err := dts.ZScore(key, elems[f])
 			if wrong(vZSet) {
 				verifAssert(err == ErrWrongTypeOperation, "C19.zscore-wrongtype")
